@@ -54,3 +54,9 @@ VARIANTS += [
     M('C05', 'strict-types-ignore-brackets', E(CP, "    if level is None or level == 'strict' or t1.name == t2.name:\n        return t1.name == t2.name", "    if level is None or level == 'strict' or t1.name == t2.name:\n        return t1.name.split('[')[0] == t2.name.split('[')[0]"), rule='C05-TYPELEVEL', key='types_match'),
     M('C05', 'rows-counted-before-the-condition', E(CP, "        if condition:\n            df = df[condition(df)].reindex()\n            ref_df = ref_df[condition(ref_df)].reindex()\n\n        na, nr = len(df), len(ref_df)", "        na, nr = len(df), len(ref_df)\n        if condition:\n            df = df[condition(df)].reindex()\n            ref_df = ref_df[condition(ref_df)].reindex()\n"), rule='C05-ROWSAFTER', key='check_dataframe'),
 ]
+
+VARIANTS += [
+    M('C05', 'first-non-null-fetched-by-label', E(CP, "            nonnulls = df[df[c].notnull()].reset_index()[c]", "            nonnulls = df[c].dropna()"), rule='C05-POSLOOKUP', key='nonnulls[0]'),
+    M('C05', 'refactor-first-non-null-by-iloc', [E(CP, "            nonnulls = df[df[c].notnull()].reset_index()[c]", "            nonnulls = df[c].dropna()"),
+                                                  E(CP, "type(nonnulls[0]) is bytes", "type(nonnulls.iloc[0]) is bytes")], kind='refactor'),
+]
